@@ -143,6 +143,51 @@ def check_endpoint(who, o, opts, faulted, peer_closed_socket,
     return fails
 
 
+ABORTS = [{"closeSocket": True, "ignoreAbruptClose": False,
+           "abort": "client-after-hs"},
+          {"closeSocket": True, "ignoreAbruptClose": False,
+           "abort": "server-at-start"}]
+
+
+def make_abort_run(arg):
+    idx, tier, seed, ai = arg
+    sc = scenarios(tier)[idx]
+    opts = ABORTS[ai]
+
+    def run_fn(choices):
+        points, obs = progs.run_session(sc, seed, choices,
+                                        recv_alts=len(RECV_ALTS),
+                                        send_alts=len(SEND_ALTS), opts=opts)
+        return points, progs.public(obs)
+    return run_fn
+
+
+def check_abort_victim(o, during_hs_only):
+    """The peer sent a fatal alert and closed; on top of that one of the
+    victim's own I/O calls may have failed.  Whatever it was doing must end
+    in an exception with the connection torn down."""
+    fails = []
+    out = o["outcome"]
+    if out is None:
+        return ["no outcome"]
+    if out[0] == "ok":
+        fails.append("program finished although the peer aborted with a "
+                     "fatal alert")
+    elif out[0] in ("stall", "budget"):
+        fails.append("victim %s although the peer closed its socket" % out[0])
+    elif out[0] == "exc":
+        if out[1] not in OK_EXC and out[1] not in SOCK_EXC:
+            fails.append("raised %s" % (out,))
+        if not o["closed"]:
+            fails.append("connection not closed after %s" % (out,))
+        if o["resumable"]:
+            fails.append("session left resumable after %s" % (out,))
+        if not o["sock_closed"]:
+            fails.append("socket left open (closeSocket is set) after %s" %
+                         (out,))
+    return fails
+
+
 def classify(points_dev, choices):
     out = []
     for (i, p) in zip(sorted(choices), points_dev):
@@ -392,6 +437,33 @@ def run(res, tier, seed):
                                        choices.items())})
     res.section("faults", scenarios=len(scs), executions=total,
                 io_points=pts_total)
+    # the peer aborts with a fatal alert and closes; plus one fault
+    na = 0
+    for idx, sc in enumerate(scs):
+        for ai, aopts in enumerate(ABORTS):
+            victim = "S" if aopts["abort"] == "client-after-hs" else "C"
+            points, base, results = explore.explore_parallel(
+                make_abort_run, (idx, tier, seed, ai), 1, allowed)
+            runs = [({}, [], base)] + list(results)
+            for (choices, pdev, obs) in runs:
+                na += 1
+                res.count()
+                devs = classify(pdev, choices) if choices else []
+                res.outcome(("abort", aopts["abort"],
+                             obs[victim]["outcome"][:3]))
+                for f in check_abort_victim(obs[victim], victim == "C"):
+                    res.violation(
+                        {"part": "peer-abort", "scenario": sc.name,
+                         "abort": aopts["abort"], "what": f[:60],
+                         "kind": (devs[0]["kind"] + ":" + devs[0]["answer"])
+                         if devs else "no-fault"},
+                        {"fault": devs, "fail": f,
+                         "victim": obs[victim]["outcome"]},
+                        {"part": "peer-abort", "scenario": sc.name,
+                         "abort": ai, "choices": dict(
+                             (str(k), v) for k, v in choices.items())})
+    res.section("peer_abort_plus_fault", executions=na,
+                aborts=[a["abort"] for a in ABORTS])
     # orderly close
     items = [(i, tier, seed, oi) for i in range(len(scs))
              for oi in range(len(OPTS))]
@@ -452,6 +524,11 @@ def replay(case, seed):
         ch = dict((int(k), v) for k, v in case["choices"].items())
         run_fn = make_run((idx, tier, seed, case["opts"]))
         pts, obs = run_fn(ch)
+        return {"fault": classify([pts[i] for i in sorted(ch)], ch),
+                "obs": obs}
+    if case["part"] == "peer-abort":
+        ch = dict((int(k), v) for k, v in case["choices"].items())
+        pts, obs = make_abort_run((idx, tier, seed, case["abort"]))(ch)
         return {"fault": classify([pts[i] for i in sorted(ch)], ch),
                 "obs": obs}
     if case["part"] == "orderly":
